@@ -32,7 +32,10 @@ TECHNIQUE = (
     "the ECU-side log; (4) ECUs with an S3 server timer on the virtual clock (0.3..5 s without any request -> back to the default "
     "session, every request restarts the timer, the expiry is an entry of the ECU-side log), scanned with --sleep 0..3 s shorter and "
     "longer than S3, with the cyclic tester present of the real run() on (interval below S3) or switched off (--no-tester-present, or "
-    "main() alone), reply latency 0..40 ms"
+    "main() alone), reply latency 0..40 ms; (5) ECUs that do not answer DiagnosticSessionControl at all for some session ids they "
+    "do not offer from the session they are in (the request is dropped instead of being answered 0x12/0x7E; ids at the start, in the "
+    "middle and at the end of 2..0x7F, from every session / only the default session / only non-default sessions), so that every "
+    "attempt of the probe (max_retries 0, 1, 3) runs into the request timeout on the virtual clock"
 )
 LEVEL_TEXT = (
     "Exploration: seeded random session graphs (3..14 session ids out of 1..0x7F plus planted chains of length depth+2, cycles, "
@@ -41,7 +44,8 @@ LEVEL_TEXT = (
     "with-hooks (default ECU class, or the harness OEM class with hook-armed transitions) x answered/unanswered resets x resets carried "
     "out immediately / 2..450 ms after the positive response (with and without boot silence, reply latency 0.5..40 ms) x ECUs "
     "without / with an idle (S3) session timeout of 0.3..5 s x --sleep 0..3 s (shorter and longer than S3) x cyclic tester present "
-    "on (interval < S3) / off x direct main()/full run().  Held = on every generated scan the result equals the reference reachability set, every "
+    "on (interval < S3) / off x ECUs answering every session change request / silent on some session ids they do not offer "
+    "(lower than, between and higher than the ids offered from that session; from default and non-default stacks; max_retries 0/1/3) x direct main()/full run().  Held = on every generated scan the result equals the reference reachability set, every "
     "reported stack is a real path, no skipped session was requested and the scan ended within its request budget.  DB-backed "
     "histories: one scan, or a scan followed by a second scan of the same target into the same database with a smaller depth, a skip "
     "list cutting stored paths, a changed graph or thorough flipped; the second scan is judged by ITS depth / skip list / graph, its "
@@ -56,7 +60,7 @@ LEVEL_NOTE = (
 RULE = (
     "cases = (graph edges, refused transitions, hook-armed transitions, depth, skip list, thorough, reset level, ECU offers reset, "
     "unanswered-reset rule and max_retries, delayed-reset rule (delay, reply latency, boot silence), S3 rule (S3 time, tester present on/off "
-    "and interval, reply latency), with_hooks, sleep, run mode, DB-backed or not; each scan of a two-scan history is one case); "
+    "and interval, reply latency), silent-session-id rule (ids, from which sessions), with_hooks, sleep, run mode, DB-backed or not; each scan of a two-scan history is one case); "
     "graphs are seeded random digraphs with planted features; non-trivial = some session lies at distance >= 2 from the default "
     "session or a planted feature (cycle off the default session, over-long chain, unreachable component, skip that cuts a path, "
     "refused transition) is present; distinct = distinct case tuples; distinct_traces = distinct ECU-side request/reply logs"
@@ -68,7 +72,13 @@ ASSUMPTIONS = [
     "explicit abort (SystemExit 1) is accepted, and counted separately, iff some session the scan must enter (or the default session itself) "
     "has no transition back to the default session and either no effective reset is in use or the default session cannot be re-entered from itself; "
     "everywhere else the exact set is required",
-    "the ECU model always answers DiagnosticSessionControl (no silent refusals)",
+    "the ECU model always answers a DiagnosticSessionControl request for a session it offers from its current session (entered, or refused "
+    "with an NRC); for ids it does NOT offer there it answers 0x12/0x7E or, under the silent-session-id rule of a case, nothing at all for "
+    "every attempt.  A dropped request has no effect on the ECU; an id that is only ever dropped is not a transition, the expected result is "
+    "the reachable set of the graph exactly as if the ECU had answered 0x12 (in particular sessions with higher ids offered from the same "
+    "session must still be found).  The default session id is never silent (the scanner's documented abort is about a REFUSED return to the "
+    "default session).  Not combined with S3 ECUs (waiting for the request timeout in a non-default session is longer than S3), with "
+    "unanswered/delayed resets, or with DB-backed scans (real time)",
     "a hook-armed transition (refused with 0x22 until the OEM hook's arming request directly preceded the session change) is a transition "
     "of the graph iff the scan runs with --with-hooks and the OEM class in use has that hook; without --with-hooks it is a refused "
     "transition (identified, not entered).  This is what sessions.py documents for --with-hooks: first without hooks, on "
@@ -148,7 +158,16 @@ def required_reach(tier: str) -> dict[str, int]:
          "s3.tester-present-off.session-default-does-not-offer-entered-after-pause-beyond-s3": 5,
          "s3.tester-present-off.pause-beyond-s3.thorough": 2, "s3.tester-present-off.pause-beyond-s3.with-reset": 2,
          "s3.tester-present-on.ping-received-during-pause": 6, "s3.tester-present-on.pause-longer-than-s3-bridged": 4,
-         "s3.tester-present-on.ping-received-in-non-default-session": 2}
+         "s3.tester-present-on.ping-received-in-non-default-session": 2,
+         # ECUs that drop session change requests for some ids they do not offer (every attempt of the probe times out)
+         "silent-dsc.scans": 30, "silent-dsc.outcome.exact": 20, "silent-dsc.probe-unanswered-on-every-attempt": 25,
+         "silent-dsc.from-default-stack": 12, "silent-dsc.from-non-default-stack": 12,
+         "silent-dsc.position/lower-than-every-other-session-offered-there": 5, "silent-dsc.position/between-sessions-offered-there": 8,
+         "silent-dsc.position/higher-than-every-session-offered-there": 12,
+         "silent-dsc.higher-session-entered-after-silence/from-default-stack": 8,
+         "silent-dsc.higher-session-entered-after-silence/from-non-default-stack": 8,
+         "silent-dsc.reachable-session-only-behind-silent-id": 10, "#silent-dsc.max-retries/": 3, "#silent-dsc.from/": 3,
+         "silent-dsc.id/first-probed": 3, "silent-dsc.id/last-probed": 3, "silent-dsc.thorough": 3, "silent-dsc.with-reset": 3}
     return r
 
 
@@ -346,6 +365,7 @@ def gen_case(rng: Any, tier: str) -> dict[str, Any]:
         case["max_retries"] = rng.choice([0, 0, 1, 3])
     case["delayed_reset"] = gen_delayed_reset(case)
     case["s3"] = gen_s3(case)
+    case["silent_dsc"] = gen_silent_dsc(case)
     # keep the run affordable: a thorough scan searches every walk, a reset costs ~depth+3 requests per probe
     adj = real_adj(case)
     cap = MAX_REQ[tier]
@@ -409,6 +429,50 @@ def gen_s3(case: dict[str, Any]) -> dict[str, Any] | None:
     if tp:
         case["full"] = True
     return {"s3": s3, "tp": tp, "tp_interval": interval, "latency": latency}
+
+
+def offered_from(case: dict[str, Any], a: int) -> set[int]:
+    """session ids the ECU offers from session a (entered, refused with an NRC, or armed by the hook)"""
+    return {int(x) for x in case["edges"].get(str(a), ())} | {b for x, b, _ in case["guarded"] if x == a}
+
+
+def gen_silent_dsc(case: dict[str, Any]) -> dict[str, Any] | None:
+    """An ECU that drops DiagnosticSessionControl requests for some session ids it does not offer from its current session (no
+    reply to any attempt) instead of answering 0x12/0x7E.  ids: anywhere in 2..0x7F (also ids no session offers), some placed below /
+    between the ids a reachable session offers, the first and the last id a scan probes; from: in which sessions the ECU behaves
+    like that.  Sets case["max_retries"].  Own generator seeded by the case (the main stream is unchanged)."""
+    import random
+
+    if case["silent_reset"] or case.get("delayed_reset") or case.get("s3"):
+        return None
+    r = random.Random("silent-dsc" + repr((sorted(case["edges"].items()), case["depth"], case["skip"], case["thorough"], case["reset"])))
+    if r.random() >= 0.3:
+        return None
+    ids: set[int] = set(r.sample(range(2, 0x80), r.randint(0, 3)))
+    near = sorted(set(level_reach(real_adj(case), set(case["skip"]), None)) | {1})
+    for _ in range(r.randint(1, 3)):  # an id below one the session offers
+        a = r.choice(near)
+        higher = sorted(b for b in offered_from(case, a) if b > 2)
+        if higher:
+            b = r.choice(higher)
+            cand = [x for x in range(2, b) if x not in offered_from(case, a)]
+            if cand:
+                ids.add(r.choice(cand))
+    if r.random() < 0.3:
+        ids.add(2)
+    if r.random() < 0.3:
+        ids.add(0x7F)
+    ids -= set(case["skip"])
+    if not ids:
+        return None
+    case["max_retries"] = r.choice([0, 0, 1, 3])
+    return {"ids": sorted(ids), "from": r.choice(["all", "all", "default", "non-default"])}
+
+
+def is_silent(case: dict[str, Any], a: int, b: int) -> bool:
+    sd = case.get("silent_dsc")
+    return bool(sd) and b in sd["ids"] and b != 1 and b not in offered_from(case, a) \
+        and (sd["from"] == "all" or (sd["from"] == "default") == (a == 1))
 
 
 # ---- one scan ------------------------------------------------------------------------------------------------------
@@ -485,19 +549,23 @@ def model(case: dict[str, Any], fresh: bool = False) -> Any:
 
     dr = None if fresh else case.get("delayed_reset")
     s3 = None if fresh else case.get("s3")
-    srv = (s3_ecu_class() if s3 else delayed_reset_ecu_class() if dr else em.GraphECU)(
+    sd = case.get("silent_dsc")
+    srv = (s3_ecu_class() if s3 else delayed_reset_ecu_class() if dr else silent_dsc_ecu_class() if sd else em.GraphECU)(
         {int(k): v for k, v in case["edges"].items()}, {(a, b): c for a, b, c in case["guarded"]},
         with_reset=case["ecu_reset"], silent_reset=None if fresh else case["silent_reset"], hooked=case["hooked"])
     if dr:
         srv.reset_delay, srv.boot_time = float(dr["delay"]), float(dr.get("boot", 0.0))
     if s3:
         srv.s3 = float(s3["s3"])
+    if sd and not s3 and not dr:
+        srv.silent_ids, srv.silent_from = {int(x) for x in sd["ids"]} - {1}, sd["from"]
     return srv
 
 
 _delayed_cls: Any = None
 _latency_cls: Any = None
 _s3_cls: Any = None
+_silent_dsc_cls: Any = None
 _s3_transport_cls: Any = None
 
 
@@ -567,6 +635,33 @@ def latency_transport_class() -> Any:
     return _latency_cls
 
 
+def silent_dsc_ecu_class() -> Any:
+    """GraphECU that drops a DiagnosticSessionControl request (no reply, no effect) when the requested id is in `silent_ids` and is
+    not offered from the session the ECU is in (`silent_from`: in every session / only in the default session / only elsewhere)."""
+    global _silent_dsc_cls
+    if _silent_dsc_cls is None:
+        from gallia.services.uds.core import service
+        from gallia.services.uds.core.constants import UDSIsoServices
+        from vf import ecu_models as em
+
+        class SilentDscECU(em.GraphECU):  # type: ignore[misc,name-defined]
+            silent_ids: set[int] = set()
+            silent_from = "all"
+            n_silent_dsc = 0
+
+            async def respond(self, request: Any) -> Any:
+                if isinstance(request, service.DiagnosticSessionControlRequest):
+                    cur, t = self.state.session, request.diagnostic_session_type
+                    offered = self.supported_services[cur].get(UDSIsoServices.DiagnosticSessionControl) or []
+                    if t in self.silent_ids and t not in offered and (self.silent_from == "all" or (self.silent_from == "default") == (cur == 1)):
+                        self.n_silent_dsc += 1
+                        return None
+                return await super().respond(request)
+
+        _silent_dsc_cls = SilentDscECU
+    return _silent_dsc_cls
+
+
 def s3_ecu_class() -> Any:
     """GraphECU with a server side session timer: when a request arrives more than `s3` seconds (event loop time, i.e. virtual
     time) after the previous one, the timer had expired in between: a non-default session was left for the default session
@@ -634,8 +729,8 @@ async def replay_path(case: dict[str, Any], path: list[int]) -> tuple[bool, int]
 
 
 CASE_KEYS = ("edges", "guarded", "depth", "skip", "skip_expr", "thorough", "reset", "ecu_reset", "with_hooks", "sleep", "full",
-             "hooked", "silent_reset", "max_retries", "delayed_reset", "s3")
-CASE_DEFAULTS: dict[str, Any] = {"hooked": [], "silent_reset": None, "max_retries": 3, "delayed_reset": None, "s3": None}  # witnesses written before these existed
+             "hooked", "silent_reset", "max_retries", "delayed_reset", "s3", "silent_dsc")
+CASE_DEFAULTS: dict[str, Any] = {"hooked": [], "silent_reset": None, "max_retries": 3, "delayed_reset": None, "s3": None, "silent_dsc": None}  # witnesses written before these existed
 
 
 def walk_ok(adj: dict[int, set[int]], path: list[Any]) -> bool:
@@ -680,6 +775,9 @@ def prepare(ctx: Any, case: dict[str, Any], db: bool = False) -> dict[str, Any]:
     delayed = case.get("delayed_reset") if eff_reset and not silent else None
     # per probe: reset (+ its unanswered repetitions, each with a tester present of the background worker), ping, the stack, the probe
     per_probe = depth + 8 + (2 * (case["max_retries"] + 1) + 2 if silent else 0) + (4 if delayed else 0)
+    sd = case.get("silent_dsc")
+    if sd:  # every attempt of a dropped probe is a request
+        per_probe += (case["max_retries"] + 1) * 2
     s3 = case.get("s3")
     if s3 and s3["tp"]:  # tester present requests of the background worker during the pause of a stack recovery (and while replies travel)
         per_probe += int(case["sleep"] / s3["tp_interval"]) + 3
@@ -696,7 +794,8 @@ def prepare(ctx: Any, case: dict[str, Any], db: bool = False) -> dict[str, Any]:
              case["with_hooks"], case["sleep"], case["full"], case["hooked"],
              sorted(silent.items()) if silent else None, case["max_retries"] if silent else None) \
         + ((("delayed-reset",) + tuple(sorted(delayed.items())),) if delayed else ()) + (("db",) if db else ()) \
-        + ((("s3",) + tuple(sorted(s3.items())),) if s3 else ())
+        + ((("s3",) + tuple(sorted(s3.items())),) if s3 else ()) \
+        + ((("silent-dsc", tuple(sd["ids"]), sd["from"], case["max_retries"]),) if sd else ())
     ctx.case(ident, nontrivial=nontrivial)
     ctx.reach("graph.conformant" if conformant else "graph.nonconformant")
     for flag, name in ((case["thorough"], "opt.thorough"), (case["reset"], "opt.reset"), (case["full"], "opt.full-run"),
@@ -719,6 +818,22 @@ def prepare(ctx: Any, case: dict[str, Any], db: bool = False) -> dict[str, Any]:
         ctx.reach(f"reset.delayed.latency/{delayed['latency'] * 1000:g}ms")
         if delayed.get("boot"):
             ctx.reach("reset.delayed.scans-with-boot-silence")
+    if sd:
+        ctx.reach("silent-dsc.scans")
+        ctx.reach(f"silent-dsc.max-retries/{case['max_retries']}")
+        ctx.reach(f"silent-dsc.from/{sd['from']}")
+        if case["thorough"]:
+            ctx.reach("silent-dsc.thorough")
+        if eff_reset:
+            ctx.reach("silent-dsc.with-reset")
+        # a reachable session every one of whose offering sessions (among those the scan probes from) drops a lower id first:
+        # found only if the scan goes on after an unanswered probe
+        scanned_from = ({s for s, d in want.items() if d < depth} | {1}) - skip
+        for t in want:
+            srcs = [a for a in scanned_from if t in adj.get(a, ())]
+            if t != 1 and srcs and all(any(is_silent(case, a, y) for y in range(2, t) if y not in skip) for a in srcs):
+                ctx.reach("silent-dsc.reachable-session-only-behind-silent-id")
+                break
     if s3:
         ctx.reach("s3.scans")
         ctx.reach("s3.tester-present-on.scans" if s3["tp"] else "s3.tester-present-off.scans")
@@ -728,7 +843,7 @@ def prepare(ctx: Any, case: dict[str, Any], db: bool = False) -> dict[str, Any]:
     w: dict[str, Any] = {k: case[k] for k in CASE_KEYS}
     w["expected"] = sorted(want)
     return {"depth": depth, "skip": skip, "adj": adj, "want": want, "unbounded": unbounded, "all_sessions": all_sessions,
-            "eff_reset": eff_reset, "silent": silent, "delayed": delayed, "s3": s3, "stuck": stuck, "conformant": conformant, "abort_allowed": abort_allowed, "budget": budget,
+            "eff_reset": eff_reset, "silent": silent, "delayed": delayed, "s3": s3, "silent_dsc": sd, "stuck": stuck, "conformant": conformant, "abort_allowed": abort_allowed, "budget": budget,
             "feat_cycle": feat_cycle, "feat_long": feat_long, "feat_unreach": feat_unreach,
             "mode": "thorough" if case["thorough"] else "default", "w": w}
 
@@ -892,6 +1007,55 @@ def reach_s3(ctx: Any, case: dict[str, Any], o: dict[str, Any], log: list[Any]) 
         ctx.reach(name)
 
 
+def silent_probe_runs(log: list[Any]) -> list[tuple[int, int, int, int]]:
+    """(index of the first attempt, index of the last attempt, ECU session, requested id) of every session change probe that the ECU
+    left unanswered on every attempt (consecutive identical DiagnosticSessionControl requests without a reply)"""
+    runs = []
+    i = 0
+    while i < len(log):
+        before, q, r, _ = log[i]
+        if len(q) == 2 and q[0] == 0x10 and r is None:
+            j = i
+            while j + 1 < len(log) and log[j + 1][1] == q and log[j + 1][2] is None and log[j + 1][0] == before:
+                j += 1
+            runs.append((i, j, before, q[1] & 0x7F))
+            i = j + 1
+        else:
+            i += 1
+    return runs
+
+
+def reach_silent_dsc(ctx: Any, case: dict[str, Any], o: dict[str, Any], log: list[Any]) -> None:
+    """ECU-side evidence for 'some not-offered session ids are never answered' (no verdicts here): where the dropped id lies
+    relative to the ids offered from that session, from which kind of stack it was probed, and whether a higher id offered from
+    the same session was entered afterwards"""
+    adj, skip = o["adj"], o["skip"]
+    seen: set[str] = set()
+    probed = [x for x in range(1, 0x80) if x not in skip]
+    for i, j, a, y in silent_probe_runs(log):
+        if j - i + 1 < case["max_retries"] + 1:
+            continue
+        seen.add("silent-dsc.probe-unanswered-on-every-attempt")
+        where = "from-default-stack" if a == 1 else "from-non-default-stack"
+        seen.add("silent-dsc." + where)
+        others = {b for b in offered_from(case, a) if b != 1 and b not in skip}
+        if others and y < min(others):
+            seen.add("silent-dsc.position/lower-than-every-other-session-offered-there")
+        elif others and y < max(others):
+            seen.add("silent-dsc.position/between-sessions-offered-there")
+        else:
+            seen.add("silent-dsc.position/higher-than-every-session-offered-there")
+        if probed and y == probed[1 if len(probed) > 1 else 0]:
+            seen.add("silent-dsc.id/first-probed")  # the first id a scan probes after the default session itself
+        if probed and y == probed[-1]:
+            seen.add("silent-dsc.id/last-probed")
+        if any(len(e[1]) == 2 and e[1][0] == 0x10 and e[0] == a and (e[1][1] & 0x7F) > y and (e[1][1] & 0x7F) in adj.get(a, ())
+               and e[2] is not None and e[2][0] == 0x50 for e in log[j + 1:]):
+            seen.add("silent-dsc.higher-session-entered-after-silence/" + where)
+    for name in sorted(seen):  # once per scan
+        ctx.reach(name)
+
+
 def mechanism(case: dict[str, Any], o: dict[str, Any], log: list[Any]) -> str:
     """ECU-side trace of the two places where the scanner has to re-enter its stack although no probe 'succeeded' in its own
     books; used only to NAME the mechanism in the key of a verdict reached otherwise (wrong set / stack / abort).
@@ -912,6 +1076,19 @@ def mechanism(case: dict[str, Any], o: dict[str, Any], log: list[Any]) -> str:
         spans = delayed_reset_spans(log)
         if any(len(e[1]) == 2 and e[1][0] == 0x10 for i, j in spans for e in log[i + 1 : j]):
             out += "/session-change-requested-before-delayed-reset-carried-out"
+    if o.get("silent_dsc"):
+        # after a probe that the ECU left unanswered on every attempt the scanner goes on with the next session id from the same
+        # stack: without --reset its next session change request is that id, with --reset it follows the reset and the stack
+        ids = [x for x in range(1, 0x80) if x not in o["skip"]]
+        for _, j, a, y in silent_probe_runs(log):
+            nxt_id = next((x for x in ids if x > y), None)
+            if nxt_id is None:
+                continue
+            later = [e[1][1] & 0x7F for e in log[j + 1:] if len(e[1]) == 2 and e[1][0] == 0x10]
+            window = later[:1] if not case["reset"] else later[: 2 * (o["depth"] + 2) + 1]
+            if nxt_id not in window:
+                out += "/remaining-session-ids-not-probed-after-unanswered-session-change"
+                break
     if o.get("s3"):
         # the ECU was left without any request for longer than S3 while it was in a non-default session (and fell back to the
         # default session behind the scanner's back); how that relates to the options is part of the name
@@ -959,6 +1136,8 @@ def judge(ctx: Any, case: dict[str, Any], o: dict[str, Any], out: dict[str, Any]
         reach_delayed_resets(ctx, log)
     if o.get("s3"):
         reach_s3(ctx, case, o, log)
+    if o.get("silent_dsc"):
+        reach_silent_dsc(ctx, case, o, log)
 
     mx = mechanism(case, o, log)
 
@@ -1004,6 +1183,8 @@ def judge(ctx: Any, case: dict[str, Any], o: dict[str, Any], out: dict[str, Any]
         ctx.reach("outcome.exact")
         if o.get("s3"):
             ctx.reach("s3.outcome.exact")
+        if o.get("silent_dsc"):
+            ctx.reach("silent-dsc.outcome.exact")
         if not conformant:
             ctx.reach("outcome.exact.nonconformant")
         # (a scan that does not abort has re-entered the default session from itself, so session 1 is always part of an exact result)
@@ -1164,6 +1345,7 @@ def fit_db(case: dict[str, Any], tier: str) -> dict[str, Any]:
     case["silent_reset"] = None
     case["delayed_reset"] = None
     case["s3"] = None
+    case["silent_dsc"] = None
     case["sleep"] = 0
     while db_cost(case) > DB_MAX_REQ[tier]:
         if case["thorough"]:
@@ -1379,8 +1561,14 @@ def pinned_case(depth: int, part: int) -> dict[str, Any]:
         edges[s].add(1)
     case = {"edges": {str(k): sorted(v) for k, v in sorted(edges.items())}, "guarded": [], "depth": depth, "skip": [], "skip_expr": [],
             "thorough": part % 4 == 1 and depth <= 4, "reset": 1 if part % 4 == 2 else None, "ecu_reset": True, "with_hooks": False, "sleep": 0,
-            "full": part % 4 == 3, "feats": ["pinned"], "hooked": [], "silent_reset": None, "max_retries": 3, "delayed_reset": None, "s3": None}
+            "full": part % 4 == 3, "feats": ["pinned"], "hooked": [], "silent_reset": None, "max_retries": 3, "delayed_reset": None, "s3": None, "silent_dsc": None}
     v = part % 16
+    if v in (9, 11):  # the ECU drops '10 03', '10 1e', '10 7f' where it does not offer them (9: everywhere, thorough; 11: outside the default session, full run)
+        case["silent_dsc"] = {"ids": [3, 30, 0x7F], "from": "all" if v == 9 else "non-default"}
+        case["max_retries"] = 1 if v == 9 else 0
+    elif v == 15:  # ... and with --reset before every probe (every attempt of a dropped probe unanswered, max_retries 3)
+        case["silent_dsc"] = {"ids": [3, 30], "from": "all"}
+        case["reset"] = 1
     if v in (5, 13):  # ECU with a session timeout of 0.4 s / 1.5 s, --sleep 1 / 2 (longer than S3), no tester present
         case["s3"] = {"s3": 0.4 if v == 5 else 1.5, "tp": False, "tp_interval": 0.5, "latency": 0.0 if v == 5 else 0.01}
         case["sleep"] = 1 if v == 5 else 2
